@@ -5,6 +5,7 @@ import (
 	"go/token"
 	"go/types"
 	"math"
+	"strings"
 	"unicode/utf8"
 
 	"golang.org/x/tools/go/ssa"
@@ -305,8 +306,15 @@ func (p *Path) strConcat(a, b StrV) StrV {
 	return p.mkStr(append(append([]*Term(nil), p.strBytes(a)...), p.strBytes(b)...))
 }
 
+func refuseUnrendered(a, b StrV) {
+	if (a.Concrete() && strings.Contains(a.s, unrenderedMark)) || (b.Concrete() && strings.Contains(b.s, unrenderedMark)) {
+		panic(unsupportedf("comparison of a string that fmt rendered from an argument the engine cannot format"))
+	}
+}
+
 func (p *Path) strEq(a, b StrV) *Term {
 	tc := p.tc()
+	refuseUnrendered(a, b)
 	if a.Len() != b.Len() {
 		return tc.False
 	}
@@ -322,6 +330,7 @@ func (p *Path) strEq(a, b StrV) *Term {
 
 func (p *Path) strLess(a, b StrV, orEq bool) *Term {
 	tc := p.tc()
+	refuseUnrendered(a, b)
 	if a.Concrete() && b.Concrete() {
 		if orEq {
 			return tc.Bool(a.s <= b.s)
